@@ -1,4 +1,4 @@
-import SkimModel.Lemmas.SessionFGInv
+import SkimModel.Lemmas.SessionFGLive
 import SkimModel.Props.C14
 /-!
 # C01 / C14 at READ granularity
@@ -288,6 +288,161 @@ theorem fg_contains_atomic (s : St α κ) (rest : List (Ev α κ)) (hf : s.finis
       Option.bind_some, hc, Bool.false_eq_true, if_false, mstep_s1 s5 f5, mstep_s2 s5 _ f5, mstep_s3 s5 _ _ f5]
     unfold handleHB hbSelect
     rw [hmain]; simp only [hc, Bool.false_eq_true, if_false, Bool.true_and]
+
+/-! ### Liveness at read granularity (parts 1 and 2; as for the coarse system, termination itself needs weak fairness of the
+threads, which is not formalised) -/
+
+/-- Part 1: whenever the event loop is idle in a running session, a wake-up is pending while a run is outstanding or not
+    everything has been read and taken — after EVERY fine-grained history, i.e. although the other threads ran between the
+    reads on which act_heart_beat based its "processed, no timer needed". -/
+theorem fg_wakeup_pending (m : κ → α → Bool) (o : Opts) (q : κ) (src : List α) (ls : List (FLabel α κ)) :
+    let f := frun m (finit o q src) ls
+    f.s.finished = none → f.pc = .idle → Wake f.s := by
+  intro f hfin hpc
+  have h := fwake_frun m (finit o q src) ls (fwake_init o q src) hfin
+  rw [show (frun m (finit o q src) ls).pc = PC.idle from hpc] at h
+  exact h
+
+/-- inside a handler M itself can always take its next micro-step -/
+theorem fg_m_enabled (f : FSt α κ) (hfin : f.s.finished = none) (hpc : f.pc ≠ .idle) : (mstep f true).isSome = true := by
+  unfold mstep
+  simp only [hfin, Option.isSome_none, Bool.false_eq_true, if_false]
+  cases h : f.pc <;> simp_all
+
+/-- Part 2 (no deadlock): in every reachable running state that is not "idle and quiescent", some step that is not a
+    keystroke is enabled — M's next micro-step when it is inside a handler, otherwise the reader, the matcher thread, the
+    timer, or M taking the queued heart beat. -/
+theorem fg_no_deadlock (m : κ → α → Bool) (o : Opts) (q : κ) (src : List α) (ls : List (FLabel α κ)) :
+    let f := frun m (finit o q src) ls
+    f.s.finished = none → ¬ (f.pc = .idle ∧ SourceEnded f.s ∧ CaughtUp f.s) →
+      ∃ l : FLabel α κ, (∀ e, l ≠ .foreign (.user e)) ∧ (fstep m f l).isSome = true := by
+  intro f hfin hnq
+  by_cases hpc : f.pc = .idle
+  · have hinv : Inv m f.s := inv_of_stable m f (fg_invariant m o q src ls) (by rw [hpc]; rfl)
+    have hw : Wake f.s := fg_wakeup_pending m o q src ls hfin hpc
+    have hnq' : ¬ (SourceEnded f.s ∧ CaughtUp f.s) := fun h => hnq ⟨hpc, h.1, h.2⟩
+    obtain ⟨l, hl, hen⟩ := no_deadlock_state m f.s hinv.core hw hfin hnq'
+    cases l with
+    | loop rd =>
+      -- the coarse loop label is enabled iff an event is queued: M dequeues it
+      refine ⟨.m true, (fun e h => by cases h), ?_⟩
+      show (mstep f true).isSome = true
+      unfold mstep
+      simp only [hfin, Option.isSome_none, Bool.false_eq_true, if_false, hpc]
+      cases hq : f.s.queue with
+      | nil => simp [step, stepWith, hfin, hq] at hen
+      | cons e rest => cases e <;> simp
+    | user e => exact absurd rfl (hl e)
+    | rPush => exact ⟨.foreign .rPush, (fun e h => by cases h), by simpa [fstep] using hen⟩
+    | rEnd => exact ⟨.foreign .rEnd, (fun e h => by cases h), by simpa [fstep] using hen⟩
+    | tTake => exact ⟨.foreign .tTake, (fun e h => by cases h), by simpa [fstep] using hen⟩
+    | tPublish => exact ⟨.foreign .tPublish, (fun e h => by cases h), by simpa [fstep] using hen⟩
+    | tStop => exact ⟨.foreign .tStop, (fun e h => by cases h), by simpa [fstep] using hen⟩
+    | timer => exact ⟨.foreign .timer, (fun e h => by cases h), by simpa [fstep] using hen⟩
+  · exact ⟨.m true, (fun e h => by cases h), fg_m_enabled f hfin hpc⟩
+
+
+theorem frun_append (m : κ → α → Bool) (f : FSt α κ) (a b : List (FLabel α κ)) :
+    frun m f (a ++ b) = frun m (frun m f a) b := by
+  unfold frun; rw [List.foldl_append]
+
+theorem frun_of_mrun (m : κ → α → Bool) : ∀ (k : Nat) (f f' : FSt α κ), mrun f k = some f' →
+    frun m f (List.replicate k (.m true)) = f' := by
+  intro k
+  induction k with
+  | zero => intro f f' h; simp [mrun] at h; subst h; rfl
+  | succ n ih =>
+    intro f f' h
+    simp only [mrun] at h
+    cases hs : mstep f with
+    | none => rw [hs] at h; simp at h
+    | some f1 =>
+      rw [hs] at h; simp only [Option.bind_some] at h
+      have : frun m f (List.replicate (n + 1) (.m true)) = frun m f1 (List.replicate n (.m true)) := by
+        simp [List.replicate_succ, frun, fstep, hs]
+      rw [this]; exact ih f1 f' h
+
+/-- every canonical coarse schedule (no keystroke, event-loop iterations with accurate reads) from an idle state is matched by
+    a fine-grained one: foreign labels as they are, each event-loop iteration as M's micro-steps back to back -/
+theorem fg_simulates (m : κ → α → Bool) : ∀ (ls : List (Label α κ)) (s : St α κ), (∀ l ∈ ls, l.canon = true) →
+    ∃ fls : List (FLabel α κ), (∀ l ∈ fls, ∀ e, l ≠ .foreign (.user e)) ∧
+      frun m ({ s := s, pc := .idle } : FSt α κ) fls = { s := runL m s ls, pc := .idle } := by
+  intro ls
+  induction ls with
+  | nil => intro s _; exact ⟨[], by simp, rfl⟩
+  | cons l ls ih =>
+    intro s hall
+    have hl : l.canon = true := hall l (by simp)
+    have hrest : ∀ x ∈ ls, x.canon = true := fun x hx => hall x (by simp [hx])
+    cases hs : step m s l with
+    | none =>
+      obtain ⟨fls, h1, h2⟩ := ih s hrest
+      refine ⟨fls, h1, ?_⟩
+      rw [h2]; simp [runL, hs]
+    | some s' =>
+      obtain ⟨fls, h1, h2⟩ := ih s' hrest
+      have hrun : runL m s (l :: ls) = runL m s' ls := by simp [runL, hs]
+      rw [hrun]
+      -- one coarse step = a block of fine-grained steps
+      have blk : ∃ b : List (FLabel α κ), (∀ x ∈ b, ∀ e, x ≠ .foreign (.user e)) ∧
+          frun m ({ s := s, pc := .idle } : FSt α κ) b = { s := s', pc := .idle } := by
+        cases l with
+        | user e => simp [Label.canon] at hl
+        | loop rd =>
+          have hrd : rd = {} := by simpa [Label.canon] using hl
+          subst hrd
+          simp only [step, stepWith] at hs
+          split at hs
+          · cases hs
+          · rename_i hfin
+            have hfin0 : s.finished = none := by
+              cases hh : s.finished with
+              | none => rfl
+              | some b => simp [hh] at hfin
+            split at hs
+            · cases hs
+            · rename_i rest hq
+              cases hs
+              obtain ⟨k, hk⟩ := fg_contains_atomic s rest hfin0 hq
+              refine ⟨List.replicate k (.m true), ?_, frun_of_mrun m k _ _ hk⟩
+              intro x hx e he
+              rw [List.mem_replicate] at hx; rw [hx.2] at he; cases he
+            · rename_i e rest hq
+              cases hs
+              refine ⟨[.m true], (fun x hx e he => by simp at hx; rw [hx] at he; cases he), ?_⟩
+              simp [frun, fstep, mstep, hfin0, hq]
+        | rPush => exact ⟨[.foreign .rPush], (fun x hx e he => by simp at hx; rw [hx] at he; cases he), by simp [frun, fstep, hs]⟩
+        | rEnd => exact ⟨[.foreign .rEnd], (fun x hx e he => by simp at hx; rw [hx] at he; cases he), by simp [frun, fstep, hs]⟩
+        | tTake => exact ⟨[.foreign .tTake], (fun x hx e he => by simp at hx; rw [hx] at he; cases he), by simp [frun, fstep, hs]⟩
+        | tPublish => exact ⟨[.foreign .tPublish], (fun x hx e he => by simp at hx; rw [hx] at he; cases he), by simp [frun, fstep, hs]⟩
+        | tStop => exact ⟨[.foreign .tStop], (fun x hx e he => by simp at hx; rw [hx] at he; cases he), by simp [frun, fstep, hs]⟩
+        | timer => exact ⟨[.foreign .timer], (fun x hx e he => by simp at hx; rw [hx] at he; cases he), by simp [frun, fstep, hs]⟩
+      obtain ⟨b, hb1, hb2⟩ := blk
+      refine ⟨b ++ fls, ?_, ?_⟩
+      · intro x hx
+        rcases List.mem_append.1 hx with h | h
+        · exact hb1 x h
+        · exact h1 x h
+      · rw [frun_append, hb2, h2]
+
+/-- Part 3 at read granularity: from every reachable running state in which the event loop is idle, no keystroke is pending
+    and select-1 / exit-0 are off, quiescence is reachable without a keystroke -/
+theorem fg_quiescence_reachable (m : κ → α → Bool) (o : Opts) (q : κ) (src : List α) (ls : List (FLabel α κ)) :
+    let f := frun m (finit o q src) ls
+    f.s.finished = none → f.pc = .idle → f.s.queue.all Ev.isHB = true → f.s.select1 = false → f.s.exit0 = false →
+      ∃ fls : List (FLabel α κ), (∀ l ∈ fls, ∀ e, l ≠ .foreign (.user e)) ∧
+        (frun m f fls).pc = .idle ∧ SourceEnded (frun m f fls).s ∧ CaughtUp (frun m f fls).s := by
+  intro f hf hpc hq h1 h0
+  have hinv : Inv m f.s := inv_of_stable m f (fg_invariant m o q src ls) (by rw [hpc]; rfl)
+  have hw : Wake f.s := fg_wakeup_pending m o q src ls hf hpc
+  have hr : Ready m f.s := ⟨hinv, hw, hf, hq, h1, h0⟩
+  obtain ⟨cls, hall, hquiet, _⟩ := reach_quiet m (mu f.s) f.s (Nat.le_refl _) hr
+  obtain ⟨fls, hno, hsim⟩ := fg_simulates m cls f.s hall
+  have hfeq : f = { s := f.s, pc := .idle } := by
+    rw [← hpc]
+  refine ⟨fls, hno, ?_⟩
+  rw [hfeq, hsim]
+  exact ⟨rfl, hquiet.1, hquiet.2⟩
 
 /-! ### The premises are met: a concrete history with steps of the reader, the timer and the matcher thread between
 M's micro-steps (kernel-evaluated) -/
